@@ -23,7 +23,7 @@ open Fpdec Fpdec.Model
 
 /-- the integer rounding kernel, all modes / operands / profiles -/
 theorem kernel_spec (prof : Profile) (tm : Mode) (mode : Option Mode) (n d : Int)
-    (hn : I128_MIN < n ∧ n ≤ I128_MAX) (hd : I128_MIN < d ∧ d ≤ I128_MAX) (hd0 : d ≠ 0) :
+    (hn : I128_MIN < n ∧ n ≤ I128_MAX) (hd : I128_MIN ≤ d ∧ d ≤ I128_MAX) (hd0 : d ≠ 0) :
     i128DivRounded prof tm n d mode = .ok (Spec.specRoundQ (mode.getD tm) n d) :=
   i128DivRounded_spec prof tm mode n d hn hd hd0
 
